@@ -45,6 +45,12 @@ type accAnnotations struct {
 	TrackedTypes map[string]any                   `json:"tracked_types"`
 	AtomicTypes  struct{ Types []string }         `json:"atomic_types"`
 	LockAliases  []struct{ Expr, Is, Why string } `json:"lock_aliases"`
+	ResultLocks  []struct {
+		Callee string
+		Result int
+		Is     string
+		Why    string
+	} `json:"result_locks"`
 	ClosureLocks []struct {
 		Callee string
 		Arg    int
@@ -160,8 +166,22 @@ type accRow struct {
 	Line    int      `json:"line"`
 	Func    string   `json:"func"`
 	Finding string   `json:"finding,omitempty"`
+	Occ     int      `json:"occ"` // occurrence id in the program skeletons (= Access.site in Lean)
 	ls      *lockset
 	owner   *funcNode
+	pos     token.Pos
+}
+
+// closureInfo: how a function literal is run (recorded by the walker, used by the skeleton builder)
+type closureInfo struct {
+	name   string
+	ls     *lockset // lockset it starts from (fresh = nothing assumed), annotation locks included
+	owner  *funcNode
+	annots []string // locks added by a closure_locks annotation
+	sync   bool     // run by the enclosing code itself (immediately invoked, or by a callee that calls its parameter directly)
+	pkg    *pkgInfo
+	lit    *ast.FuncLit
+	idx    int // skeleton number
 }
 
 type callEdge struct {
@@ -190,23 +210,26 @@ type pkgInfo struct {
 }
 
 type accExtractor struct {
-	repo         string
-	fset         *token.FileSet
-	ann          accAnnotations
-	pkgs         []*pkgInfo
-	tracked      map[*types.TypeName]string // type → display name
-	atomicTy     map[string]bool
-	funcs        map[*types.Func]*funcNode
-	rows         []*accRow
-	unresolved   []string
-	usedAnn      map[string]bool
-	nclosure     map[string]int
-	methodsNamed map[string][]*funcNode // declared methods by name (interface-call targets)
-	chaEdges     int
-	aliases      map[string]map[string]bool // "Type.field" (pointer-typed field) → tracked fields it may point to
-	aliasWhy     []string
-	ourPkgs      map[*types.Package]*pkgInfo
-	trackedNames map[string]bool
+	repo          string
+	fset          *token.FileSet
+	ann           accAnnotations
+	pkgs          []*pkgInfo
+	tracked       map[*types.TypeName]string // type → display name
+	atomicTy      map[string]bool
+	funcs         map[*types.Func]*funcNode
+	rows          []*accRow
+	unresolved    []string
+	usedAnn       map[string]bool
+	nclosure      map[string]int
+	methodsNamed  map[string][]*funcNode // declared methods by name (interface-call targets)
+	chaEdges      int
+	aliases       map[string]map[string]bool // "Type.field" (pointer-typed field) → tracked fields it may point to
+	aliasWhy      []string
+	ourPkgs       map[*types.Package]*pkgInfo
+	trackedNames  map[string]bool
+	confinedCache map[string]map[string]bool
+	closures      map[token.Pos]*closureInfo
+	lockVars      map[types.Object]string // local *sync.Mutex variables → the mutex they point to
 }
 
 func (x *accExtractor) typeDisplay(tn *types.TypeName) string {
@@ -267,7 +290,7 @@ func isMutexType(t types.Type) (rw bool, ok bool) {
 func extractAccesses(repo, root string) error {
 	x := &accExtractor{repo: repo, fset: token.NewFileSet(), tracked: map[*types.TypeName]string{}, atomicTy: map[string]bool{},
 		funcs: map[*types.Func]*funcNode{}, usedAnn: map[string]bool{}, nclosure: map[string]int{},
-		methodsNamed: map[string][]*funcNode{}, aliases: map[string]map[string]bool{}, ourPkgs: map[*types.Package]*pkgInfo{}, trackedNames: map[string]bool{}}
+		methodsNamed: map[string][]*funcNode{}, aliases: map[string]map[string]bool{}, ourPkgs: map[*types.Package]*pkgInfo{}, trackedNames: map[string]bool{}, closures: map[token.Pos]*closureInfo{}, lockVars: map[types.Object]string{}}
 	ab, err := os.ReadFile(filepath.Join(root, "go", "extract", "accesses", "access_annotations.json"))
 	if err != nil {
 		return err
@@ -344,6 +367,7 @@ func extractAccesses(repo, root string) error {
 		}
 	}
 	x.aliasPrepass()
+	x.lockVarPrepass()
 	// walk every function body
 	for _, p := range x.pkgs {
 		for _, f := range p.files {
@@ -525,6 +549,16 @@ func (w *walker) stmt(s ast.Stmt, ls *lockset) (*lockset, bool) {
 				delete(ls.pub, k) // overwritten: the name no longer refers to the published object
 			}
 			w.expr(l, ls, mWrite)
+			if (s.Tok == token.DEFINE || s.Tok == token.ASSIGN) && len(s.Lhs) == len(s.Rhs) {
+				// v := x.f with x.f a pointer field of a tracked type to an untracked struct (a configuration
+				// object such as Transport.TLS that the CALLER owns and other pools/connections share): from
+				// here on writes through v are writes to shared memory, until v is reassigned (v = v.Clone())
+				if k := exprKey(l); k != "" && !strings.Contains(k, ".") {
+					if c, ok := w.sharedPtrField(s.Rhs[i]); ok {
+						ls.pub[k] = pubInfo{container: c, anyUse: false}
+					}
+				}
+			}
 			if s.Tok == token.DEFINE || s.Tok == token.ASSIGN {
 				if id, ok := l.(*ast.Ident); ok && len(s.Lhs) == len(s.Rhs) && isFresh(s.Rhs[i]) {
 					if o := w.p.info.Defs[id]; o != nil {
@@ -778,7 +812,7 @@ func (w *walker) record(field string, sel ast.Node, root ast.Expr, write, atomic
 	}
 	rel, _ := filepath.Rel(w.x.repo, pos.Filename)
 	w.x.rows = append(w.x.rows, &accRow{Field: field, Write: write, Atomic: atomic, Phase: phase, File: rel, Line: pos.Line,
-		Func: w.fname, ls: ls.clone(), owner: w.fn})
+		Func: w.fname, ls: ls.clone(), owner: w.fn, pos: sel.Pos()})
 }
 
 func (w *walker) trackedStruct(t types.Type) (string, bool) {
@@ -873,6 +907,11 @@ func (w *walker) selector(e *ast.SelectorExpr, ls *lockset, mode amode, atomic b
 	next:
 		_ = viaPointer
 		t = f.Type()
+	}
+	if mode == mWrite {
+		if c, ok := w.sharedPtrField(e.X); ok {
+			w.pubRow(c, e.Pos(), ls) // x.f.g = … through the shared pointer x.f
+		}
 	}
 	// the operand: a value-struct operand is accessed in the same mode, a pointer operand is read
 	xm := mRead
@@ -970,7 +1009,7 @@ func (w *walker) expr(e ast.Expr, ls *lockset, mode amode) {
 					pos := w.x.fset.Position(kv.Pos())
 					rel, _ := filepath.Rel(w.x.repo, pos.Filename)
 					w.x.rows = append(w.x.rows, &accRow{Field: owner + "." + id.Name, Write: true, Phase: "ctor", File: rel, Line: pos.Line,
-						Func: w.fname, ls: ls.clone(), owner: w.fn})
+						Func: w.fname, ls: ls.clone(), owner: w.fn, pos: kv.Pos()})
 				}
 				w.expr(kv.Value, ls, mRead)
 			} else {
@@ -985,10 +1024,15 @@ func (w *walker) expr(e ast.Expr, ls *lockset, mode amode) {
 	}
 }
 
-func (w *walker) closure(fl *ast.FuncLit, ls *lockset) {
+func (w *walker) closure(fl *ast.FuncLit, ls *lockset, annots ...string) {
+	w.closureS(fl, ls, false, annots...)
+}
+
+func (w *walker) closureS(fl *ast.FuncLit, ls *lockset, sync bool, annots ...string) {
 	base := w.fn.name
 	w.x.nclosure[base]++
 	q := &walker{x: w.x, p: w.p, fn: w.fn, fname: fmt.Sprintf("%s$%d", base, w.x.nclosure[base]), ctor: w.ctor, deferred: map[string]lmode{}, firstGo: w.firstGo}
+	w.x.closures[fl.Pos()] = &closureInfo{name: q.fname, ls: ls.clone(), owner: w.fn, annots: annots, pkg: w.p, lit: fl, sync: sync}
 	if ls.fresh {
 		// a goroutine / stored function does not see the constructor's private phase
 		q.ctor = map[types.Object]bool{}
@@ -1000,6 +1044,14 @@ func (w *walker) closure(fl *ast.FuncLit, ls *lockset) {
 func (w *walker) lockID(recv ast.Expr) string {
 	var parts []string
 	e := recv
+	if id, ok := recv.(*ast.Ident); ok {
+		// a local *sync.Mutex variable: which mutex it points to was derived from its assignments (lockVars)
+		if o := w.p.info.Uses[id]; o != nil {
+			if l, ok := w.x.lockVars[o]; ok {
+				return l
+			}
+		}
+	}
 	for {
 		switch u := e.(type) {
 		case *ast.ParenExpr:
@@ -1160,9 +1212,9 @@ func (w *walker) call(c *ast.CallExpr, ls *lockset, kind string) {
 		case "go":
 			w.closure(fl, newLS(true))
 		case "defer":
-			w.closure(fl, w.deferredLS(ls))
+			w.closure(fl, newLS(true))
 		default:
-			w.closure(fl, ls.clone())
+			w.closureS(fl, ls.clone(), true)
 		}
 		return
 	}
@@ -1255,28 +1307,30 @@ func (w *walker) call(c *ast.CallExpr, ls *lockset, kind string) {
 			continue
 		}
 		var cls *lockset
+		isSync := false
 		switch {
 		case kind == "go":
 			cls = newLS(true)
+		case kind == "defer":
+			cls = newLS(true) // deferred: runs at return, nothing assumed
 		case fn != nil && w.paramOnlyCalled(fn, i):
-			cls = ls.clone()
-			if kind == "defer" {
-				cls = w.deferredLS(ls)
-			}
+			cls, isSync = ls.clone(), true
 		case fn == nil && syncExternal[name]:
-			cls = ls.clone()
+			cls, isSync = ls.clone(), true
 		default:
 			cls = newLS(true)
 		}
+		var annots []string
 		for _, an := range w.x.ann.ClosureLocks {
 			if an.Callee == name && an.Arg == i {
 				for _, h := range an.Holds {
 					cls.lock(h, lExcl)
+					annots = append(annots, h)
 				}
 				w.x.usedAnn[fmt.Sprintf("closure_locks %s#%d", an.Callee, an.Arg)] = true
 			}
 		}
-		w.closure(fl, cls)
+		w.closureS(fl, cls, isSync, annots...)
 	}
 	// publication of a pointer-like value: from here on its pointee is shared with other goroutines
 	if kind == "" && len(c.Args) == 1 && callee != nil && recv != nil {
@@ -1300,7 +1354,7 @@ func (w *walker) call(c *ast.CallExpr, ls *lockset, kind string) {
 						case "go":
 							cand.edges = append(cand.edges, callEdge{caller: w.fn, ls: newLS(true), spawn: true})
 						case "defer":
-							cand.edges = append(cand.edges, callEdge{caller: w.fn, ls: w.deferredLS(ls)})
+							cand.edges = append(cand.edges, callEdge{caller: w.fn, ls: newLS(true)})
 						default:
 							cand.edges = append(cand.edges, callEdge{caller: w.fn, ls: ls.clone()})
 						}
@@ -1315,7 +1369,7 @@ func (w *walker) call(c *ast.CallExpr, ls *lockset, kind string) {
 		case "go":
 			fn.edges = append(fn.edges, callEdge{caller: w.fn, ls: newLS(true), spawn: true})
 		case "defer":
-			fn.edges = append(fn.edges, callEdge{caller: w.fn, ls: w.deferredLS(ls)})
+			fn.edges = append(fn.edges, callEdge{caller: w.fn, ls: newLS(true)})
 		default:
 			fn.edges = append(fn.edges, callEdge{caller: w.fn, ls: ls.clone()})
 		}
@@ -1566,16 +1620,11 @@ func (x *accExtractor) emit(root string) error {
 			if !globMatch(t.Field, r.Field) || r.Phase == "ctor" {
 				continue
 			}
-			ok := false
 			base := r.Func
 			if i := strings.Index(base, "$"); i >= 0 {
 				base = base[:i]
 			}
-			for _, c := range t.ConfinedTo {
-				if globMatch(c, base) {
-					ok = true
-				}
-			}
+			ok := x.confined(t.ConfinedTo)[base]
 			if !ok {
 				confinement = append(confinement, fmt.Sprintf("%s accessed in %s (%s:%d), outside the functions the token %s is confined to", r.Field, r.Func, r.File, r.Line, t.Token))
 			}
@@ -1616,7 +1665,7 @@ func (x *accExtractor) emit(root string) error {
 		}
 		return rows[i].Line < rows[j].Line
 	})
-	fieldID, lockIDs, siteID := map[string]int{}, map[string]int{}, map[string]int{}
+	fieldID, lockIDs := map[string]int{}, map[string]int{}
 	var fields, locks, sites []string
 	id := func(m map[string]int, l *[]string, k string) int {
 		if v, ok := m[k]; ok {
@@ -1660,12 +1709,144 @@ func (x *accExtractor) emit(root string) error {
 			hs = append(hs, fmt.Sprintf("⟨%d, %s⟩", id(lockIDs, &locks, l), mode))
 		}
 		site := fmt.Sprintf("%s:%d %s", r.File, r.Line, r.Func)
+		for len(sites) <= r.Occ {
+			sites = append(sites, "")
+		}
+		sites[r.Occ] = site
 		ph := ".published"
 		if r.Phase == "ctor" {
 			ph = ".ctor"
 		}
 		return fmt.Sprintf("{ field := %d, write := %v, atomic := %v, locks := [%s], phase := %s, site := %d }",
-			fieldID[r.Field], r.Write, r.Atomic, strings.Join(hs, ", "), ph, id(siteID, &sites, site))
+			fieldID[r.Field], r.Write, r.Atomic, strings.Join(hs, ", "), ph, r.Occ)
+	}
+	// program skeletons first: rendering them numbers the access occurrences (Access.site)
+	for _, r := range x.rows {
+		r.Occ = -1
+	}
+	sks := x.buildSkeletons()
+	var sk strings.Builder
+	em := &skEmitter{lockID: func(l string) int { return id(lockIDs, &locks, strings.TrimSuffix(l, ":R")) }}
+	sk.WriteString("/-\nGen/Skeletons.lean — GENERATED by go/extract/accesses (skeleton.go). DO NOT EDIT.\nProgram skeletons of the functions that matter for locksets (see Model/LockProg.lean).\n-/\nimport KafkaVerif.Model.LockProg\n\nnamespace KV.Gen\nopen KV.Lockset KV.LockProg\n\n")
+	var skNames []string
+	exemptFn := map[string]bool{}
+	for _, s := range sks {
+		fmt.Fprintf(&sk, "/-- %s -/\ndef sk%d : Cmd :=\n  %s\n\n", s.name, s.idx, em.render(s.body))
+		skNames = append(skNames, s.name)
+		if s.exempt {
+			exemptFn[s.name] = true
+		}
+	}
+	sk.WriteString("def skeletons : List (Nat × Cmd) := [")
+	for i := range sks {
+		if i > 0 {
+			sk.WriteString(", ")
+		}
+		fmt.Fprintf(&sk, "(%d, sk%d)", i, i)
+	}
+	sk.WriteString("]\n\n")
+	holdsLit := func(ls []string) string {
+		var hs []string
+		for _, l := range ls {
+			if strings.HasSuffix(l, ":R") {
+				hs = append(hs, fmt.Sprintf("⟨%d, .shared⟩", em.lockID(strings.TrimSuffix(l, ":R"))))
+			} else { // holding exclusively includes holding shared (see render of acq)
+				hs = append(hs, fmt.Sprintf("⟨%d, .excl⟩", em.lockID(l)), fmt.Sprintf("⟨%d, .shared⟩", em.lockID(l)))
+			}
+		}
+		return "[" + strings.Join(hs, ", ") + "]"
+	}
+	// binary-heap indexed trie literal: node i has children 2i+1 and 2i+2
+	// (Trie.get decodes the LAST step first: position n>0 lives in child (n-1)%2 at position (n-1)/2, so the
+	// subtree reached by a path holds the indices mul·n'+add)
+	var trieAt func(mul, add int, val func(int) string) string
+	trieAt = func(mul, add int, val func(int) string) string {
+		if add >= len(sks) {
+			return ".nil"
+		}
+		return fmt.Sprintf("(.node (some %s) %s %s)", val(add), trieAt(2*mul, mul+add, val), trieAt(2*mul, 2*mul+add, val))
+	}
+	trie := func(_ int, val func(int) string) string { return trieAt(1, 0, val) }
+	sk.WriteString("/-- entry locksets (what every static caller holds; ∅ for functions that can be entered from elsewhere) -/\ndef skEntry : Trie LS :=\n  ")
+	sk.WriteString(trie(0, func(i int) string { return holdsLit(sks[i].entry) }))
+	sk.WriteString("\n\n")
+	// relOf: least fixpoint of local releases ∪ callees' releases
+	relOf := make([]map[string]bool, len(sks))
+	callsOf := make([]map[*skFunc]bool, len(sks))
+	for i, s := range sks {
+		relOf[i], callsOf[i] = map[string]bool{}, map[*skFunc]bool{}
+		skLocalRels(s.body, relOf[i], callsOf[i])
+	}
+	for changed := true; changed; {
+		changed = false
+		for i := range sks {
+			for c := range callsOf[i] {
+				for m := range relOf[c.idx] {
+					if !relOf[i][m] {
+						relOf[i][m], changed = true, true
+					}
+				}
+			}
+		}
+	}
+	sk.WriteString("/-- what each skeleton (with its callees) may release -/\ndef skRel : Trie (List Mutex) :=\n  ")
+	sk.WriteString(trie(0, func(i int) string {
+		var ms []int
+		for m := range relOf[i] {
+			ms = append(ms, em.lockID(m))
+		}
+		sort.Ints(ms)
+		var ss []string
+		for _, m := range ms {
+			ss = append(ss, fmt.Sprint(m))
+		}
+		return "[" + strings.Join(ss, ", ") + "]"
+	}))
+	sk.WriteString("\n\n")
+	// rows never reached by a skeleton, and rows of untranslated functions, stay on the Go-side dataflow
+	nextOcc := em.occ
+	var exempt []int
+	for _, r := range rows {
+		base := r.Func
+		if i := strings.Index(base, "$"); i >= 0 {
+			base = base[:i]
+		}
+		if r.Occ < 0 {
+			r.Occ = nextOcc
+			nextOcc++
+			if len(r.Locks) > 0 {
+				exempt = append(exempt, r.Occ)
+			}
+		} else if exemptFn[r.Func] || exemptFn[base] {
+			exempt = append(exempt, r.Occ)
+		}
+	}
+	sort.Ints(exempt)
+	var tokenIDs []string
+	seenTok := map[string]bool{}
+	for _, t := range x.ann.Tokens {
+		if !seenTok[t.Token] {
+			seenTok[t.Token] = true
+			tokenIDs = append(tokenIDs, fmt.Sprint(em.lockID(t.Token)))
+		}
+	}
+	fmt.Fprintf(&sk, "/-- ordering-protocol tokens: not locks, not subject to the lockset analysis -/\ndef tokenIds : List Mutex := [%s]\n\n", strings.Join(tokenIDs, ", "))
+	var exs []string
+	for _, e := range exempt {
+		exs = append(exs, fmt.Sprint(e))
+	}
+	fmt.Fprintf(&sk, "/-- occurrences whose locksets are NOT re-derived (untranslated control flow: goto / fallthrough, or a site the skeleton builder did not reach) -/\ndef exemptOcc : List Nat := [%s]\n\n", strings.Join(exs, ", "))
+	fmt.Fprintf(&sk, "def skeletonNames : List String := [\n")
+	for i, n := range skNames {
+		sep := ","
+		if i == len(skNames)-1 {
+			sep = ""
+		}
+		fmt.Fprintf(&sk, "  %q%s\n", n, sep)
+	}
+	sk.WriteString("]\n\nend KV.Gen\n")
+	if err := os.WriteFile(filepath.Join(root, "lean", "KafkaVerif", "Gen", "Skeletons.lean"), []byte(sk.String()), 0o644); err != nil {
+		return err
 	}
 	sb.WriteString("def groups : List Group := [\n")
 	var excluded []*accRow
@@ -1821,7 +2002,7 @@ func (w *walker) global(id *ast.Ident, ls *lockset, mode amode) {
 		phase = "ctor"
 	}
 	w.x.rows = append(w.x.rows, &accRow{Field: name, Write: write, Atomic: atomic, Phase: phase, File: rel, Line: pos.Line,
-		Func: w.fname, ls: ls.clone(), owner: w.fn})
+		Func: w.fname, ls: ls.clone(), owner: w.fn, pos: id.Pos()})
 }
 
 // aliasPrepass follows the address of a tracked field of an untracked, non-sync type (`&c.rbuf`) that is
@@ -2043,7 +2224,7 @@ func (w *walker) pubRow(container string, pos token.Pos, ls *lockset) {
 	p := w.x.fset.Position(pos)
 	rel, _ := filepath.Rel(w.x.repo, p.Filename)
 	w.x.rows = append(w.x.rows, &accRow{Field: "pointee:" + container, Write: true, Phase: "published", File: rel, Line: p.Line,
-		Func: w.fname, ls: ls.clone(), owner: w.fn})
+		Func: w.fname, ls: ls.clone(), owner: w.fn, pos: pos})
 }
 
 // pubUse: a mention of a published name.  After Pool.Put every use counts (the object may already belong to
@@ -2094,5 +2275,177 @@ func (w *walker) retained(ls *lockset, pos token.Pos) {
 		if info.anyUse && strings.Contains(k, ".") {
 			w.pubRow(info.container, pos, ls)
 		}
+	}
+}
+
+// confined: the functions a token is confined to = those matching the annotation's globs, closed under the call
+// graph: an unexported function that is never used as a value, never started with `go`, and whose static callers
+// are all confined is itself confined (an extracted helper inherits the confinement of its only callers — the same
+// propagation as caller-holds for locks).
+func (x *accExtractor) confined(globs []string) map[string]bool {
+	key := strings.Join(globs, "|")
+	if x.confinedCache == nil {
+		x.confinedCache = map[string]map[string]bool{}
+	}
+	if c, ok := x.confinedCache[key]; ok {
+		return c
+	}
+	set := map[string]bool{}
+	for _, fn := range x.funcs {
+		for _, g := range globs {
+			if globMatch(g, fn.name) {
+				set[fn.name] = true
+			}
+		}
+	}
+	for changed := true; changed; {
+		changed = false
+		for _, fn := range x.funcs {
+			if set[fn.name] || !fn.propagate || len(fn.edges) == 0 {
+				continue
+			}
+			all := true
+			for _, e := range fn.edges {
+				if e.spawn || !set[e.caller.name] {
+					all = false
+				}
+			}
+			if all {
+				set[fn.name], changed = true, true
+			}
+		}
+	}
+	x.confinedCache[key] = set
+	return set
+}
+
+// sharedPtrField: e is `x.f` where f is a field of a tracked type whose type is a pointer to a named struct that
+// is neither tracked nor a sync/atomic type — e.g. connPool.tls, Transport.TLS, Dialer.TLS (*tls.Config),
+// Batch.msgs (*messageSetReader).  Returns the container name "Owner.f".
+func (w *walker) sharedPtrField(e ast.Expr) (string, bool) {
+	for {
+		if p, ok := e.(*ast.ParenExpr); ok {
+			e = p.X
+			continue
+		}
+		break
+	}
+	se, ok := e.(*ast.SelectorExpr)
+	if !ok {
+		return "", false
+	}
+	sel := w.p.info.Selections[se]
+	if sel == nil || sel.Kind() != types.FieldVal {
+		return "", false
+	}
+	// owner of the last step
+	t := sel.Recv()
+	idx := sel.Index()
+	for _, k := range idx[:len(idx)-1] {
+		st, ok := derefStruct(t)
+		if !ok {
+			return "", false
+		}
+		t = st.Field(k).Type()
+	}
+	owner, tracked := w.trackedStruct(t)
+	if !tracked {
+		return "", false
+	}
+	ft := sel.Obj().Type()
+	ptr, isPtr := ft.(*types.Pointer)
+	if !isPtr {
+		return "", false
+	}
+	n := namedOf(ptr.Elem())
+	if n == nil {
+		return "", false
+	}
+	if _, isStruct := n.Underlying().(*types.Struct); !isStruct {
+		return "", false
+	}
+	if _, tr := w.trackedStruct(ft); tr || w.isAtomicNamed(ft) {
+		return "", false
+	}
+	return owner + "." + sel.Obj().Name(), true
+}
+
+// lockVarPrepass: local variables of type *sync.Mutex / *sync.RWMutex and the mutex they point to, by OBJECT (names
+// do not matter): `l := x.f` / `l = &x.f` with x.f a mutex field (through lock_aliases), or the i-th result of a call
+// that a reviewed `result_locks` annotation identifies (`_, _, lock, _ := c.waitResponse(…)` = &c.rlock).
+// A variable assigned two different mutexes is dropped.
+func (x *accExtractor) lockVarPrepass() {
+	conflict := map[types.Object]bool{}
+	set := func(o types.Object, l string) {
+		if o == nil || l == "" {
+			return
+		}
+		if old, ok := x.lockVars[o]; ok && old != l {
+			conflict[o] = true
+		}
+		x.lockVars[o] = l
+	}
+	for _, p := range x.pkgs {
+		w := &walker{x: x, p: p}
+		obj := func(e ast.Expr) types.Object {
+			id, ok := e.(*ast.Ident)
+			if !ok {
+				return nil
+			}
+			if o := p.info.Defs[id]; o != nil {
+				return o
+			}
+			return p.info.Uses[id]
+		}
+		isMu := func(o types.Object) bool {
+			if o == nil {
+				return false
+			}
+			_, ok := isMutexType(o.Type())
+			_, isPtr := o.Type().(*types.Pointer)
+			return ok && isPtr
+		}
+		for _, f := range p.files {
+			ast.Inspect(f, func(n ast.Node) bool {
+				as, ok := n.(*ast.AssignStmt)
+				if !ok {
+					return true
+				}
+				if len(as.Rhs) == 1 && len(as.Lhs) > 1 {
+					if c, ok := as.Rhs[0].(*ast.CallExpr); ok {
+						if callee, _ := w.calleeOf(c); callee != nil {
+							name := w.calleeName(callee)
+							for _, an := range x.ann.ResultLocks {
+								if an.Callee == name && an.Result < len(as.Lhs) {
+									if o := obj(as.Lhs[an.Result]); isMu(o) {
+										set(o, an.Is)
+										x.usedAnn["result_locks "+an.Callee] = true
+									}
+								}
+							}
+						}
+					}
+					return true
+				}
+				for i, l := range as.Lhs {
+					if i >= len(as.Rhs) {
+						break
+					}
+					if o := obj(l); isMu(o) {
+						r := as.Rhs[i]
+						if u, ok := r.(*ast.UnaryExpr); ok && u.Op == token.AND {
+							r = u.X
+						}
+						if _, ok := r.(*ast.SelectorExpr); ok {
+							set(o, w.lockID(r))
+						}
+					}
+				}
+				return true
+			})
+		}
+	}
+	for o := range conflict {
+		delete(x.lockVars, o)
 	}
 }
